@@ -22,6 +22,7 @@ from ..engine import (
     qualname_of,
     walk_no_nested,
 )
+from ..normal import nfunc
 from ..report import Report
 
 SAFE = "semantiva/utils/safe_eval.py"
@@ -221,7 +222,8 @@ def run(repo: Repo, R: Report) -> None:
     handlers: Dict[str, ast.FunctionDef] = {}
     for st in visitor.body:
         if isinstance(st, FuncNode) and st.name.startswith("visit_"):
-            handlers[st.name[len("visit_"):]] = st
+            # normal form: named sub-expressions (``func = node.func``), hoisted constants and extracted helpers are seen through
+            handlers[st.name[len("visit_"):]] = nfunc(repo, SAFE, f"_SafeVisitor.{st.name}", copyprop="all")
     for name in sorted(allowed):
         R.check(name in DOCUMENTED_NODES, r_wl, fn_rel, "_SafeVisitor", f"_ALLOWED_NODES: ast.{name}",
                 f"ast.{name} is accepted but is not in the documented safe grammar", getattr(allowed_val, "lineno", 0))
@@ -246,7 +248,7 @@ def run(repo: Repo, R: Report) -> None:
     for f in sorted(funcs):
         R.check(f in DOCUMENTED_FUNCS, r_funcs, fn_rel, "_SafeVisitor", f"_ALLOWED_FUNCS: {f!r}",
                 f"call target {f!r} is whitelisted but is not one of the documented functions", getattr(funcs_val, "lineno", 0))
-    ev_init = repo.func(SAFE, "ExpressionEvaluator.__init__")
+    ev_init = nfunc(repo, SAFE, "ExpressionEvaluator.__init__", copyprop="all")
     env_dicts = [n for n in walk_no_nested(ev_init) if isinstance(n, ast.Dict)]
     if not env_dicts:
         raise AnalysisError("ExpressionEvaluator.__init__: environment dict literal not found")
@@ -285,7 +287,7 @@ def run(repo: Repo, R: Report) -> None:
     gv = handlers_generic = None
     for st in visitor.body:
         if isinstance(st, FuncNode) and st.name == "generic_visit":
-            gv = st
+            gv = nfunc(repo, SAFE, "_SafeVisitor.generic_visit", copyprop="all")
     if gv is None:
         R.violation(r_gen, fn_rel, "_SafeVisitor", "def generic_visit", "generic_visit is not overridden: no whitelist test at all", visitor.lineno)
     else:
